@@ -161,9 +161,9 @@ def check_chain(ctx, ch):
 
 def run(ctx):
     quick = ctx.tier == "quick"
-    ctx.bounds = {"NQ": 2, "pool": 16, "ops": OPS, "depth": "every single operation; second operation from 1/40 (quick) or 1/3 (thorough) of the first-level results (deterministic hash)", "pairs": "all 256 two-qubit pairs" + ("" if quick else " + all 4096 three-qubit pairs")}
+    ctx.bounds = {"NQ": 2, "pool": 16, "ops": OPS, "depth": "every single operation; second operation from 1/16 (quick) or 1/3 (thorough) of the first-level results (deterministic hash)", "pairs": "all 256 two-qubit pairs" + ("" if quick else " + all 4096 three-qubit pairs")}
     runs = [
-        ("arith2", dict(NQ=2, Pool="<-PoolArith2", Ops=OPS, Depth=3, ExpandMod=40 if quick else 3, Emitting=True), ["DepthBound", "NoOverflow"]),
+        ("arith2", dict(NQ=2, Pool="<-PoolArith2", Ops=OPS, Depth=3, ExpandMod=16 if quick else 3, Emitting=True), ["DepthBound", "NoOverflow"]),
         ("pairs2", dict(NQ=2, Pool="<-PoolStrings", Ops='{"mul"}', Depth=2, ExpandMod=1, Emitting=True), ["DepthBound"]),
     ]
     if not quick:
